@@ -349,7 +349,9 @@ def C10(tier):
     for rule, opts in RULE_CFGS:
         slow = rule in ('qpq', 'meek-prf') or opts.get('arithmetic') == 'guarded'
         for seats in ((2,) if quick else (1, 2)):
-            jobs.append(djob('split', rule, opts, 3, seats, 2 if (slow and quick) else 3, N - (1 if slow else 0), budget=600 if quick else 1500))
+            # (guarded arithmetic at the thorough tier: one ballot fewer, the 5-ballot universe takes 1300 s of a 1500 s budget)
+            gslow = (not quick) and opts.get('arithmetic') == 'guarded'
+            jobs.append(djob('split', rule, opts, 3, seats, 2 if (slow and quick) else 3, N - (1 if slow else 0) - (1 if gslow else 0), budget=600 if quick else 1500))
     if not quick:
         for rule, opts in [('wigm-prf-batch', {}), ('cfer-batch', {}), ('mpls', {}), ('meek', FX3)]:
             jobs.append(djob('split', rule, opts, 4, 2, 2, 5, budget=1500))
@@ -402,7 +404,8 @@ def C11(tier):
             jobs.append(djob('withdraw', rule, opts, 4, 2, 2, 5 if not slow else 4, w=w, budget=600 if quick else 1500, weight=3))
     # two candidates withdrawn at once (adjacent on some ballots)
     for rule, opts in ([('wigm', grid.FX2), ('scotland', {}), ('meek', FX3), ('cfer', {})] if quick else RULE_CFGS):
-        jobs.append(djob('withdraw', rule, opts, 4, 1, 3, 4, w=[2, 3], budget=600 if quick else 1500, weight=3))
+        # (guarded arithmetic: rankings of two; with rankings of three this job needs about 1400 s of its 1500 s budget)
+        jobs.append(djob('withdraw', rule, opts, 4, 1, 2 if opts.get('arithmetic') == 'guarded' else 3, 4, w=[2, 3], budget=600 if quick else 1500, weight=3))
     # a withdrawn candidate inside an equal-rank group
     for rule, opts in [('meek', FX3), ('warren', FX3), ('scotland', {}), ('wigm', grid.FX2)]:
         jobs.append(djob('withdraw', rule, opts, 3, 1, 2, 5, w=2, equal=['1=2 3', '2=3 1', '1 2=3', '3 1=2'], budget=600, weight=1))
